@@ -25,3 +25,13 @@ TECHNIQUE = "Coq proof (round-trip and totality theorems over all messages / all
 LEVEL_TEXT = ("Machine-checked Coq theorems: decode(encode m) = m on the carried fields for every valid message, packet streams decode to the same packets, "
               "and for EVERY byte string message/packet/header decoding returns a value or an error, never Panic (Go bounds semantics modelled explicitly) and terminates. "
               "Tied to the Go code by running model and implementation on the same inputs each run, with every result (bytes, fields, error kind, panic) compared.")
+
+
+def disagree_is_violation(case):
+    """A differing codec result is itself the failing input, except for the live-socket framing
+    ops: there the property only requires that the valid packets at the head of the stream are
+    handed up unchanged and that nothing panics (the monitor); a different error kind or a different
+    treatment of the malformed remainder breaks the correspondence but not the property."""
+    def name(o):
+        return next(iter(o)) if isinstance(o, dict) else o
+    return not all(name(o) in ("OFramed", "OWsFramed") for o in case.get("ops", []))
